@@ -1,7 +1,7 @@
 SPECIFICATION Spec
 CONSTANTS
   MaxUses = 4
-  Vias = {"plain", "jit", "remat", "mapvars", "jit_f", "remat_f", "mapvars_f", "remat_p", "while0", "while1", "while2"}
+  Vias = {"plain", "jit", "remat", "mapvars", "jit_f", "remat_f", "mapvars_f", "remat_p", "mapvars_ro", "while0", "while1", "while2"}
   FixedPush = TRUE
   Hist = TRUE
 INVARIANT TypeOK
